@@ -25,6 +25,7 @@ type Item struct {
 	O        *Obligation
 	Script   string
 	ScriptQF string
+	ScriptNoLocal string
 	Res      SolveResult
 	Status   string // discharged | known-finding | violation
 	Finding  *Finding
@@ -145,6 +146,11 @@ func checkMain(args []string) int {
 			if o.Assumps != nil {
 				as = o.Assumps
 			}
+			if len(o.Local) > 0 {
+				// first without the goal-directed unfoldings of recursive spec functions (they are only needed when the
+				// goal has to be established from the definition; otherwise they only slow the solvers down)
+				it.ScriptNoLocal = script(append(append([]*Term{}, as...), g.WatchAssumes...), o.Cond, nil)
+			}
 			if len(g.WatchAssumes) > 0 || len(o.Local) > 0 {
 				as = append(append(append([]*Term{}, as...), g.WatchAssumes...), o.Local...)
 			}
@@ -183,7 +189,23 @@ func checkMain(args []string) int {
 		if it.EngineErr != "" {
 			return
 		}
+		if it.ScriptNoLocal != "" {
+			r := solvePortfolio(it.ScriptNoLocal, 3, seed)
+			if r.Verdict == "unsat" {
+				it.Res = r
+				return
+			}
+		}
 		it.Res = solvePortfolio(it.Script, secs, seed)
+		if it.Res.Verdict == "unknown" {
+			// undecided is not refuted: one more attempt with other solver seeds and twice the budget, so that solver
+			// variance near the time limit does not turn into an alarm
+			r := solvePortfolio(it.Script, 2*secs, seed+7)
+			r.Secs += it.Res.Secs
+			if r.Verdict != "unknown" {
+				it.Res = r
+			}
+		}
 		if it.Res.Verdict == "unknown" && it.ScriptQF != "" {
 			r := solvePortfolio(it.ScriptQF, secs, seed)
 			if r.Verdict == "unsat" {
